@@ -10,7 +10,7 @@ import os
 import re
 import json
 import hashlib
-from rsparse import (SourceFile, Body, Unsupported, is_tok, is_group, lex, find_pattern, flat_tokens, Tok, Group)
+from rsparse import (SourceFile, Body, Unsupported, is_tok, is_group, lex, find_pattern, flat_tokens, Tok, Group, estart, eend)
 
 TAG_RE = re.compile(r'//\s*\[([^\]]+)\]\s*$')
 
@@ -33,6 +33,7 @@ class FnSpec:
         self.sig_replace = []      # (pattern, replacement)
         self.sig_extra = []        # further ensures clauses (text, file, line), appended after sig
         self.iter_rewrites = {}    # loop ordinal -> (kind, index name, length expr)
+        self.map_collect = {}      # closure ordinal -> ([contract, hint at body start, hint after push], file, line)  (R14)
 
 
 class Vc:
@@ -151,6 +152,14 @@ class Vc:
                 fn.loops[info[0]] = (info[1], text, p, ln)
             elif kind == 'closure':
                 fn.closures[info[0]] = (info[1], text, p, ln)
+            elif kind == 'mapcollect':
+                parts = text.split('\n---\n')
+                for h in parts[1:]:
+                    bad = ghost_only(h)
+                    if bad:
+                        raise VcError("%s:%d hint text is not ghost-only: `%s`" % (p, ln, bad))
+                fn.map_collect[info] = (parts, p, ln)
+                fn.loops[1000 + info] = (None, parts[0], p, ln)       # the invariants are obligations of the function (table id loop100<k>)
             buf = []
             cur = None
 
@@ -243,6 +252,14 @@ class Vc:
             elif word == 'closure':
                 m = re.match(r'(\d+)\s+(.*)$', rest)
                 cur = ('closure', (int(m.group(1)), m.group(2).strip()), path, ln + 1)
+            elif word == 'map-collect':
+                # R14: `let NAME: T = RECV.iter_mut().enumerate().map(|(N, X)| { BODY }).collect();`
+                #   -> `let mut NAME: T = Vec::new(); for N in 0..RECV.len() <contract> { let X = &RECV[N]; let v__ = { BODY }; NAME.push(v__); }`
+                # the text that follows is the loop contract (invariant / decreases), optionally `---` + ghost text for the start of the body, `---` + ghost text after the push
+                m = re.match(r'(\d+)\s*$', rest)
+                if not m:
+                    raise VcError("%s:%d bad map-collect directive" % (path, ln))
+                cur = ('mapcollect', int(m.group(1)), path, ln + 1)
             elif word == 'for-index':
                 # R6: `for P in E.iter_mut()` over an array of length N  ->  `for I in 0..N { let P = &mut E[I]; .. }`
                 #     `for (I, P) in E.into_iter().enumerate().take(N)` / `.iter().enumerate()`  ->  `for I in 0..N { let P = E[I]; .. }`
@@ -761,6 +778,8 @@ class Extractor:
                 # vacuity canary: with the function's preconditions in force `false` must NOT be provable at entry
                 edits.append((it.body.open.end, it.body.open.end, '\n        proof { assert(false); } // [canary]\n', {'kind': 'canary', 'fn': q}, -9))
                 finfo['canary'] = True
+        if not base and spec is not None and spec.map_collect:
+            self.map_collect_edits(sf, body, spec, edits, q, origin_fn)
         if not base:
             self.closure_rewrites(sf, body, spec, edits, q, origin_fn)
         segs = self.render(sf, it.start, it.end, self.dedup(edits))
@@ -907,6 +926,8 @@ class Extractor:
             prio = 5 if where in ('exit', 'block_end', 'loop_body_end', 'after', 'after_loop') else -1
             edits.append((pos, pos, '\n' + text + '\n', origin_fn(p, ln - 1), prio + ln * 1e-6))
         for k, (iter_name, text, p, ln) in spec.loops.items():
+            if k >= 1000:
+                continue        # contract of a loop generated by R14 (map_collect_edits)
             if k >= len(body.loops):
                 self.warnings.append("%s: loop %d lost (invariant skipped)" % (q, k))
                 continue
@@ -918,6 +939,62 @@ class Extractor:
                 edits.append((intok.end, intok.end, ' %s:' % iter_name, {'kind': 'gen'}))
                 self.rule('R9', sf.rel, sf.line_of(intok.start), 'ghost iterator name on the for loop of %s' % q)
             edits.append((lp.body.start, lp.body.start, '\n' + text + '\n', origin_fn(p, ln - 1), -2))
+
+    def map_collect_edits(self, sf, body, spec, edits, q, origin_fn):
+        """R14: `let NAME: T = RECV.iter_mut().enumerate().map(|(N, X)| { BODY }).collect();` -> an index loop that pushes the value of BODY.
+        Trusted: IterMut / Enumerate / Map / collect visit the elements in order, each once, and collect the closure's values in that order.
+        X is bound as a shared reference (BODY must not assign through it: checked syntactically)."""
+        src = sf.src
+        for k, (parts, p, ln) in spec.map_collect.items():
+            if k >= len(body.closures):
+                raise Unsupported("%s: map-collect closure %d not found" % (q, k))
+            cl = body.closures[k]
+            st = cl.stmt
+            el = st.elems
+            shape = "%s: closure %d is not in a statement `let NAME: T = RECV.iter_mut().enumerate().map(|(n, x)| { .. }).collect();` (R14)" % (q, k)
+            if not (len(el) > 8 and is_tok(el[0], 'let') and is_tok(el[1], kind='ident') and is_tok(el[2], ':')):
+                raise Unsupported(shape)
+            eq = [i for i, e in enumerate(el) if is_tok(e, '=')]
+            if not eq:
+                raise Unsupported(shape)
+            eq = eq[0]
+            mp = [i for i, e in enumerate(el) if is_tok(e, 'map') and i + 1 < len(el) and is_group(el[i + 1], '(') and el[i + 1].start <= cl.bar1.start < el[i + 1].end]
+            if not mp:
+                raise Unsupported(shape)
+            i = mp[0]
+            ok = i - 7 > eq and is_tok(el[i - 1], '.') and is_group(el[i - 2], '(') and is_tok(el[i - 3], 'enumerate') and is_tok(el[i - 4], '.') and is_group(el[i - 5], '(') \
+                and is_tok(el[i - 6], 'iter_mut') and is_tok(el[i - 7], '.') and not el[i - 2].children and not el[i - 5].children
+            ok = ok and i + 4 < len(el) and is_tok(el[i + 2], '.') and is_tok(el[i + 3], 'collect') and is_group(el[i + 4], '(') and not el[i + 4].children
+            ok = ok and all(is_tok(e, ';') for e in el[i + 5:]) and len(cl.body) == 1 and is_group(cl.body[0], '{')
+            inner = [e for e in cl.params[0].children if not is_tok(e, ',')] if (len(cl.params) == 1 and is_group(cl.params[0], '(')) else []
+            ok = ok and len(inner) == 2 and all(is_tok(e, kind='ident') for e in inner)
+            # the closure must be the whole argument of map(..)
+            ok = ok and el[i + 1].children and el[i + 1].children[0] is cl.bar1 and eend(el[i + 1].children[-1]) == cl.body[0].end
+            if not ok:
+                raise Unsupported(shape)
+            name = el[1].text
+            ty = src[el[3].start:eend(el[eq - 1])]
+            recv = src[estart(el[eq + 1]):eend(el[i - 8])]
+            n, x = inner[0].text, inner[1].text
+            btoks = flat_tokens([cl.body[0]])
+            for j in range(len(btoks) - 2):
+                if btoks[j].text == '*' and btoks[j + 1].text == x and btoks[j + 2].text in ('=', '+=', '-='):
+                    raise Unsupported("%s: the closure assigns through `%s` (R14 binds it as a shared reference)" % (q, x))
+            contract = parts[0]
+            h0 = parts[1] if len(parts) > 1 else ''
+            h1 = parts[2] if len(parts) > 2 else ''
+            bopen, bclose = cl.body[0].open, cl.body[0].close
+            edits.append((st.start, bopen.start, 'let mut %s: %s = Vec::new();\n        for %s in 0..%s.len()' % (name, ty, n, recv), {'kind': 'rule', 'rule': 'R14'}, -3))
+            edits.append((bopen.start, bopen.start, '\n' + contract + '\n        ', origin_fn(p, ln - 1), -2))
+            edits.append((bopen.start, bopen.start, '{ let %s = &%s[%s];' % (x, recv, n), {'kind': 'rule', 'rule': 'R14'}, -1))
+            if h0:
+                edits.append((bopen.start, bopen.start, '\n' + h0 + '\n', origin_fn(p, ln - 1 + len(parts[0].split('\n')) + 1), -0.5))
+            edits.append((bopen.start, bopen.start, ' let v__ = ', {'kind': 'rule', 'rule': 'R14'}, -0.2))
+            edits.append((bclose.end, st.end, '; %s.push(v__);' % name, {'kind': 'rule', 'rule': 'R14'}, 1))
+            if h1:
+                edits.append((st.end, st.end, '\n' + h1 + '\n', origin_fn(p, ln - 1 + len(parts[0].split('\n')) + 1 + (len(h0.split('\n')) + 1 if h0 else 0)), 2))
+            edits.append((st.end, st.end, ' }', {'kind': 'rule', 'rule': 'R14'}, 3))
+            self.rule('R14', sf.rel, sf.line_of(st.start), 'let %s = %s.iter_mut().enumerate().map(|(%s, %s)| ..).collect() in %s -> index loop pushing the closure body\'s value' % (name, recv, n, x, q))
 
     def closure_rewrites(self, sf, body, spec, edits, q, origin_fn):
         """R5: closure parameters that are patterns -> a named, typed parameter plus a `let` of the same pattern."""
